@@ -162,7 +162,8 @@ def judge(cell, r):
     else:
         if exc in specifics:
             return 'specific-error-class-for-generic-status:%s' % r['exc']
-        if sec is None and exc != 'statuserror':
+        if exc != 'statuserror':
+            # no second-level code, or one without a documented class: the generic status error
             return 'generic-status-error-expected:%s' % r['exc']
     return None
 
@@ -201,7 +202,7 @@ def run(ctx):
             'distinct_outcomes': len(hist), 'outcome_histogram': hist,
         },
         'assumptions': ['independent copy of the second-level code -> error class table (by name)',
-                        'unknown second-level code: any error that is not one of the 21 specific classes counts as generic', 'xmlsec1 model at the seam'],
+                        'generic error = the StatusError class itself (the documented base class of the specific ones)', 'xmlsec1 model at the seam'],
     }
 
 
